@@ -802,24 +802,41 @@ else:
         buffersize: int = field(default=-1, kw_only=True)
 
         def __post_init__(self) -> None:
+            self._error_recv, self._error_send = multiprocessing.Pipe(duplex=False)
             self.process = multiprocessing.Process(target=self.task)
 
         def __enter__(self) -> Self:
             self.start()
             return self
 
-        def __exit__(self, *args, **kwargs) -> None:
+        def __exit__(self, exc_type, *args, **kwargs) -> None:
+            if exc_type is not None:
+                # reading or processing the input failed and the end-of-queue
+                # sentinel will never arrive, do not wait for (or finalise) it
+                self.process.terminate()
             self.join()
+            if exc_type is None:
+                self.raise_if_failed()
 
         def task(self) -> None:
-            with CatalogWriter(
-                self.cache_directory,
-                overwrite=self.overwrite,
-                chunk_info=self.chunk_info,
-                buffersize=self.buffersize,
-            ) as writer:
-                while (patches := self.patch_queue.get()) is not EndOfQueue:
-                    writer.process_patches(patches)
+            try:
+                with CatalogWriter(
+                    self.cache_directory,
+                    overwrite=self.overwrite,
+                    chunk_info=self.chunk_info,
+                    buffersize=self.buffersize,
+                ) as writer:
+                    while (patches := self.patch_queue.get()) is not EndOfQueue:
+                        writer.process_patches(patches)
+            except BaseException as err:
+                self._error_send.send(err)  # raised again in the parent process
+
+        def raise_if_failed(self) -> None:
+            """Re-raise an exception that terminated the writer process."""
+            if self._error_recv.poll():
+                raise self._error_recv.recv()
+            if self.process.exitcode != 0:
+                raise RuntimeError("catalog writer process terminated unexpectedly")
 
         def start(self) -> None:
             self.process.start()
